@@ -195,7 +195,8 @@ class MustAnalysis:
         if st.handlers:
             if handler_entry is None:
                 handler_entry = facts  # nothing in the body can raise as far as we know; be conservative
-            handler_entry = handler_entry & facts if handler_entry is not None else facts
+            # (a handler is entered only from a raise point inside the body; each of those carries the facts that hold
+            # there -- after any inner finally it went through -- so no further weakening by the facts at the try's entry)
             for h in st.handlers:
                 ho = self.block(h.body, handler_entry)
                 inner_pending += ho.pending
